@@ -24,6 +24,12 @@ pub trait Context {
     fn set_def(&self, _name: String, _value: Reg8) -> Option<Reg8>;
     fn set_special(&self, _name: String, _value: Expr) -> Option<Expr>;
 
+    /// Count nodes of expressions which are evaluated during whole build, returns new total.
+    /// Contexts without such counter have no limit for build
+    fn count_evaluated(&self, _nodes: usize) -> usize {
+        0
+    }
+
     fn get_expr(&self, name: &String) -> Option<Expr> {
         if let Some(expr) = self.get_define(name) {
             Some(expr)
@@ -70,6 +76,8 @@ pub struct CommonContext {
     pub include_paths: Rc<RefCell<BTreeSet<PathBuf>>>,
     // count of files which are read for this build
     pub included_files: Rc<Cell<usize>>,
+    // count of nodes of expressions which are evaluated for this build
+    pub evaluated_nodes: Rc<Cell<usize>>,
     // count of messages which were issued before every call of macro: messages of
     // the macro are issued when it is expanded, after parsing, and go to that place
     pub messages_before_calls: Rc<RefCell<Vec<usize>>>,
@@ -87,12 +95,19 @@ impl CommonContext {
             device: Rc::new(RefCell::new(Some(Device::new(0)))),
             include_paths: Rc::new(RefCell::new(BTreeSet::new())),
             included_files: Rc::new(Cell::new(0)),
+            evaluated_nodes: Rc::new(Cell::new(0)),
             messages_before_calls: Rc::new(RefCell::new(vec![])),
         }
     }
 }
 
 impl Context for CommonContext {
+    fn count_evaluated(&self, nodes: usize) -> usize {
+        self.evaluated_nodes
+            .set(self.evaluated_nodes.get().saturating_add(nodes));
+        self.evaluated_nodes.get()
+    }
+
     fn get_define(&self, name: &String) -> Option<Expr> {
         self.defines.borrow().get(name).map(|x| x.clone())
     }
